@@ -29,5 +29,8 @@ def run(tier, seed):
         "initial configuration: element values are On/Off, names and keys pairwise distinct; for the exclusive rules at most one switch is On initially (driver-author obligation on the definition)",
     ]
     chk.assumptions += ["client writes carry On/Off for known element names (anything else is C12's concern)"]
-    chk.min_obligations = 300
+    chk.min_obligations = 300 if not chk.out_of_reach else 1
+    chk.standin_on_out_of_reach("native enumeration of small switch vectors", "switch.enumerate",
+                                {"nmax": 3 if tier == "quick" else 4},
+                                bound_text="rules x 1..3 switches (4 thorough) x admissible initial configurations x every single operation incl. 1- and 2-element client writes")
     return chk.finish()
